@@ -13,11 +13,11 @@ NOT_NL = [(0, 9), (11, 0xD7FF), (0xE000, 0x10FFFF)]
 class FixedTz(datetime.tzinfo):
     """fixed-offset zone with an arbitrary (possibly None) name, for native replays"""
 
-    def __init__(self, minutes, name):
-        self.minutes = minutes; self.name = name
+    def __init__(self, minutes, name, seconds=0):
+        self.minutes = minutes; self.name = name; self.seconds = seconds
 
     def utcoffset(self, dt):
-        return datetime.timedelta(minutes=self.minutes)
+        return datetime.timedelta(minutes=self.minutes, seconds=self.seconds)
 
     def tzname(self, dt):
         return self.name
@@ -26,7 +26,7 @@ class FixedTz(datetime.tzinfo):
         return datetime.timedelta(0)
 
     def __repr__(self):
-        return f"FixedTz({self.minutes}, {self.name!r})"
+        return f"FixedTz({self.minutes}, {self.name!r})" if not self.seconds else f"FixedTz({self.minutes}, {self.name!r}, {self.seconds})"
 
 
 class DatetimeArg(Arg):
@@ -83,6 +83,10 @@ class DatetimeArg(Arg):
             if self.aware:
                 off = rng.choice([0, -720, 840, -30, 30, -1, 1, -59, 330, -210, rng.randint(-720, 840)])
                 tz = FixedTz(off, rng.choice([None, "", "EST", "X", "é]", ":["]))
+                if rng.random() < 0.15:
+                    # offsets with a seconds part (local mean time): outside the symbolic domain (whole minutes), bounded samples only
+                    m_, s_ = rng.choice([(353, 28), (19, 32), (-297, 58), (0, 30), (-1, 59), (839, 1), (-720, 59)])
+                    tz = FixedTz(m_, rng.choice([None, "LMT", "AMT"]), s_)
             if self.as_time:
                 out.append(datetime.time(h, mi, s, us, tzinfo=tz))
             else:
@@ -406,7 +410,8 @@ def reject_contracts(with_date):
                             requires=[f"1 <= {e['mo']} <= 12 and 1 <= {e['y']} and {e['d']} > spec.ofxdt.days_in_month({e['y']}, {e['mo']})",
                                       f"{e['h']} <= 23 and {e['mi']} <= 59 and {e['s']} <= 59"],
                             raises=[(ValueError, "True", "must")], notes="calendar-invalid day", props=["C09", "C10"]))
-    # a non-digit (any other code point) in any digit position
+    # a non-digit (any other code point, the decimal digits of other scripts included) in any digit position -
+    # of the full form and of the shorter forms (bare date, date and time without milliseconds)
     for p in range(n_full):
         if full.per_pos.get(p) == ".":
             continue
@@ -414,6 +419,13 @@ def reject_contracts(with_date):
         out.append(Contract(f"ofxtools.Types:{cls.__name__}.convert",
                             args=[dtinst(cls), StrArg("value", length=n_full, per_pos=pp, charset=DIG)], call=meth("convert"),
                             raises=[(OFXSpecError, "True", "must")], notes=f"non-digit at {p}", props=["C09", "C10"]))
+    for tp in ((0, 1) if with_date else (1,)):
+        short = shape(with_date, tp, None)
+        for p in range(short.maxlen):
+            pp = dict(short.per_pos); pp[p] = NONDIGIT
+            out.append(Contract(f"ofxtools.Types:{cls.__name__}.convert",
+                                args=[dtinst(cls), StrArg("value", length=short.maxlen, per_pos=pp, charset=DIG)], call=meth("convert"),
+                                raises=[(OFXSpecError, "True", "must")], notes=f"non-digit at {p} of the {short.maxlen}-character form", props=["C09", "C10"]))
     return out
 
 
